@@ -314,9 +314,13 @@ func Generate(seed uint64, n int, tier, corpusDir string, shard int, out *kit.Ou
 			a := c17.GenSchema(cr, false)
 			kind := "model:valid"
 			muts := c17.Mutations()
+			stride := 7
+			for gcd(stride, len(muts)) != 1 {
+				stride++
+			}
 			malformed++
 			for k := 0; k < len(muts); k++ {
-				if m := muts[(malformed*7+k)%len(muts)]; c17.MutateKind(cr, a, m) { // stride 7: a quick run samples the whole list
+				if m := muts[(malformed*stride+k)%len(muts)]; c17.MutateKind(cr, a, m) { // a quick run samples the whole list
 					kind = "model:malformed:" + m
 					break
 				}
@@ -378,4 +382,11 @@ func Generate(seed uint64, n int, tier, corpusDir string, shard int, out *kit.Ou
 		}
 	}
 	return nil
+}
+
+func gcd(a, b int) int {
+	for b != 0 {
+		a, b = b, a%b
+	}
+	return a
 }
